@@ -300,3 +300,25 @@ def run_shard(tier, shard, res: Result):
         if i % 211 == 0:
             c = cases[i]
             res.sample({"op": c[0], "reply": reply_bytes(c[1], c[3], c[5], c[6])}, 3)
+
+
+def replay(witness, res: Result):
+    from ..core import unjson_bytes
+    if "reply" not in witness:
+        print("multi-step case; witness:", witness)
+        run_multistep(res)
+        return
+    op = witness["op"]
+    reply = unjson_bytes(witness["reply"])
+    srv = ms.Server(users={b"user": b"pw"})
+    sess, r = mslab.authed_session(srv)
+    srv.canned = [b'NO (PRIMER-CODE) "primer text"\r\n']
+    sess.call("deletescript", "primer")
+    srv.canned = [reply, b'OK "sentinel one"\r\n', b'NO (SENTINEL-7) "sentinel two"\r\n']
+    args = BOOL_OPS.get(op) or DATA_OPS[op]
+    out = sess.call(op, *args)
+    s1 = sess.call("havespace", "s", 1)
+    s2 = sess.call("deletescript", "s2")
+    print("outcome:", out, "errcode:", sess.client.errcode, "errmsg:", sess.client.errmsg)
+    print("sentinels:", s1, s2, "unread:", sess.unread())
+    print("(compare with the expectation recorded in the witness:", witness.get("outcome"), ")")
